@@ -28,7 +28,7 @@ type profile struct {
 }
 
 var (
-	profSmall   = profile{"small", 4, 2, 1000, 14, 5}
+	profSmall   = profile{"small", 4, 2, 1000000, 14, 5}
 	profDefault = profile{"default", 1000, 61440, 2048 * 100000000, 1398801, 0xfffffffe}
 	curProfile  profile
 )
